@@ -111,7 +111,7 @@ func (e *Engine) leaves(t types.Type) []Leaf {
 			return []Leaf{{"", ArraySort(I, el[0].S)}}
 		}
 	case *types.TypeParam:
-		return []Leaf{{"", I}}
+		return []Leaf{{"tag", I}, {"ref", I}}
 	}
 	panic(fmt.Sprintf("leaves: unsupported type %s", t))
 }
@@ -213,7 +213,7 @@ func (e *Engine) fromLeaves1(t types.Type, ls []*Term) (Val, []*Term) {
 	case *types.Array:
 		return VArr{ls[0]}, ls[1:]
 	case *types.TypeParam:
-		return VScalar{ls[0]}, ls[1:]
+		return VIface{ls[0], ls[1]}, ls[2:]
 	}
 	panic(fmt.Sprintf("fromLeaves: unsupported type %s", t))
 }
